@@ -288,6 +288,7 @@ FieldsInSetCanMergeIdeal(C) ==
 (* What OverlappingFieldsCanBeMerged of today's implementation computes                                  *)
 (* (src/validation/rules/overlapping_fields_can_be_merged.rs): for every non-empty selection set the     *)
 (* fields reachable through fragments are keyed by (innermost *written* type condition or none,          *)
+(* an inline fragment without condition keeps the enclosing one;                                         *)
 (* response key); two fields with the same key conflict when their names or arguments differ.  No        *)
 (* parent types, no merged sub-selections, no response shapes.                                           *)
 RECURSIVE ImplKeyed(_, _, _, _)
@@ -295,7 +296,7 @@ ImplKeyed(C, sels, on, visited) ==   \* [f : Seq([on, node]), v]
   IF sels = <<>> THEN [f |-> <<>>, v |-> visited]
   ELSE LET s == Head(sels)
            r == IF s.k = "field" THEN [f |-> <<[on |-> on, node |-> s]>>, v |-> visited]
-                ELSE IF s.k = "inline" THEN ImplKeyed(C, s.sels, s.on, visited)
+                ELSE IF s.k = "inline" THEN ImplKeyed(C, s.sels, IF s.on = "" THEN on ELSE s.on, visited)
                 ELSE IF ~HasFrag(C, s.name) \/ s.name \in visited THEN [f |-> <<>>, v |-> visited]
                 ELSE ImplKeyed(C, Frag(C, s.name).sels, Frag(C, s.name).on, visited \cup {s.name})
            rest == ImplKeyed(C, Tail(sels), on, r.v)
@@ -328,14 +329,13 @@ SomeKeyRepeated(C) ==
   LET ks == Flatten([i \in 1..Len(Ops(C)) |-> KeysOf(Ops(C)[i].sels)]) \o Flatten([i \in 1..Len(Frags(C)) |-> KeysOf(Frags(C)[i].sels)])
   IN \E i, j \in 1..Len(ks) : i < j /\ ks[i] = ks[j]
 
-\* Known deviations: DevOverlapMissesConflicts (a conflict of the specification that the keyed comparison
-\* does not see is accepted) and DevOverlapFalseConflict (the keyed comparison reports two fields that
-\* the specification lets merge, e.g. under untyped inline fragments nested in different object types).
+\* Known deviation DevOverlapMissesConflicts: a conflict of the specification that the keyed comparison does not see
+\* is accepted.  (The switch only replaces the specification's answer where the specification finds a conflict; a
+\* conflict reported by the implementation on a document the specification lets merge is never excused.)
 FieldsInSetCanMerge(C) ==
   IF ~SomeKeyRepeated(C) THEN {} ELSE
   LET ideal == FieldsInSetCanMergeIdeal(C) IN
   IF ideal # {} /\ Dev(C, "DevOverlapMissesConflicts") THEN FieldsInSetCanMergeImpl(C)
-  ELSE IF ideal = {} /\ Dev(C, "DevOverlapFalseConflict") THEN FieldsInSetCanMergeImpl(C)
   ELSE ideal
 
 ----------------------------------------------------------------------------
@@ -444,9 +444,7 @@ ValueClauses(C, ty, v) ==
            ELSE IF v.k = "str" /\ InSeq(v.v, TypeDef(C, n).values) /\ Dev(C, "DevEnumAcceptsString") THEN {}
            ELSE {"ValuesOfCorrectType.enum"}
       [] Kind(C, n) = "INPUT_OBJECT" ->
-           IF v.k # "obj"
-           \* Known deviation DevInputObjectNonObjectAccepted: any non-object literal is accepted for an input object
-           THEN (IF Dev(C, "DevInputObjectNonObjectAccepted") THEN {} ELSE {"ValuesOfCorrectType.inputObject"})
+           IF v.k # "obj" THEN {"ValuesOfCorrectType.inputObject"}
            ELSE LET defs == TypeDef(C, n).inputFields
                     es == EntriesOf(C, v)
                 IN (IF \E i, j \in 1..Len(es) : i < j /\ es[i].key = es[j].key THEN {"UniqueInputFieldNames"} ELSE {})
